@@ -18,8 +18,10 @@ from .values import (
     ObjV,
     SeqV,
     SetV,
+    TupListV,
     TupV,
     Unsupported,
+    as_T,
     V,
     Z,
     fresh,
@@ -251,6 +253,12 @@ def method_call(eng, node, st, preargs=None):
     base = eng.ev(f.value, st)
     args = preargs if preargs is not None else [eng.ev(a, st) for a in node.args]
     kwargs = {kw.arg: eng.ev(kw.value, st) for kw in node.keywords}
+    if isinstance(base, TupListV):
+        if mname == "append":
+            tau = as_T(args[0], st.assume)
+            eng.row_registry.append(base.append(tau, st.assume))
+            return NONE
+        raise Unsupported(f"list-of-tuples.{mname}")
     if isinstance(base, ListV):
         if mname == "append":
             named = getattr(eng.contract.cls, "named_appends", False) if eng.contract is not None else False
